@@ -192,8 +192,13 @@ pub fn run(ctx: &Ctx) -> Outcome {
                     }
                     // (3) merged BFS over piece lengths
                     let lens: Vec<usize> = if bs <= 4 { (0..=2 * bs + 1).collect() } else if bs <= 32 { vec![0, 1, 2, bs - 1, bs, bs + 1, 2 * bs - 1, 2 * bs, 2 * bs + 1] } else { vec![0, bs - 1, bs, bs + 1, 2 * bs - 1, 2 * bs, 2 * bs + 1] };
+                    let expect_states = reachable_offsets(&lens, lbfs) as u64;
                     let m = ChunkMachine { fe: &fe, key, iv: &iv, data: &data[..lbfs], pre: &pre, want: &want, lens, bs };
                     let st = bfs::bfs(&m, &mut rep, 2 * lbfs + 2, 200_000, &|| false);
+                    if rep.violations.is_empty() && st.states != expect_states {
+                        rep.machinery_errors.push(format!("explorer completeness cross-check failed for {} {}: {} canonical states, {} reachable offsets", cfg.name, fe.name, st.states, expect_states));
+                    }
+                    rep.count("model_states_cross_checked", expect_states);
                     rep.count("bfs_states", st.states);
                     rep.count("bfs_transitions", st.transitions);
                     rep.count("bfs_dedup_hits", st.dedup_hits);
